@@ -270,13 +270,25 @@ def ncon_cases(run, ct, rng, count):
         want = nets.refeval(net, arrays)
         run.count()
         run.nontrivial(("ncon", str(inds), str(shapes)))
-        try:
-            got = np.asarray(ct.ncon(arrays, inds))
-            if got.shape != want.shape or not np.array_equal(got, want):
-                run.violation(f"ncon({inds}) differs from the equivalent einsum (outputs ordered -1, -2, ...)", {"ncon": inds, "shapes": shapes},
-                              tags={"value", "ncon"})
-        except Exception as e:
-            run.violation(f"ncon({inds}) shapes={shapes} raised {core.exc_text(e)}", {"ncon": inds, "shapes": shapes}, tags={"raised", "ncon"})
+        # the same integer labels in the containers callers hand over: lists of ints, tuples, numpy integer arrays, numpy scalars
+        forms = [("lists of ints", inds)]
+        r_ = rng.random()
+        if r_ < 0.3:
+            forms.append(("tuples", tuple(tuple(t) for t in inds)))
+        elif r_ < 0.6:
+            forms.append(("numpy integer arrays", [np.array(t, dtype=np.int64) for t in inds]))
+        elif r_ < 0.8:
+            forms.append(("lists of numpy integers", [[np.int32(x) for x in t] for t in inds]))
+        for fname, finds in forms:
+            try:
+                got = np.asarray(ct.ncon(arrays, finds))
+                if got.shape != want.shape or not np.array_equal(got, want):
+                    run.violation(f"ncon({inds}) [labels as {fname}] differs from the equivalent einsum (outputs ordered -1, -2, ...): shape "
+                                  f"{got.shape} vs {want.shape}", {"ncon": inds, "shapes": shapes, "labels_as": fname},
+                                  tags={"value", "ncon", "labels:" + fname.replace(" ", "-")})
+            except Exception as e:
+                run.violation(f"ncon({inds}) [labels as {fname}] shapes={shapes} raised {core.exc_text(e)}",
+                              {"ncon": inds, "shapes": shapes, "labels_as": fname}, tags={"raised", "ncon", "labels:" + fname.replace(" ", "-")})
 
 
 def run(run):
